@@ -591,6 +591,16 @@ def _per_ctor(run, P, f: Func):
                     and isinstance(s.targets[0], ast.Name) and s.targets[0].id in used:
                 mentioned |= _names_in(s.value) & set(vars_)
         for v in sorted(mentioned):
+            for s in ast.walk(f.node):
+                if isinstance(s, ast.Assign) and any(v in _names_in(t) for t in s.targets) and (
+                        (isinstance(s.value, ast.Subscript) and (dotted(s.value.value) or "").startswith("self."))
+                        or (isinstance(s.value, ast.Call) and isinstance(s.value.func, ast.Attribute)
+                            and s.value.func.attr == "get"
+                            and (dotted(s.value.func.value) or "").startswith("self."))):
+                    # the variable of an earlier occurrence is taken from a table kept by the
+                    # mapper (a memo): see the remark at the returns below; not decided
+                    raise AnalysisError(f"{f.qualname}: '{v}' may come from {norm(s.value, 50)} "
+                                        f"(made for an earlier occurrence); not decided")
             assigning = [c for c in ctors if v in _names_in(_assignee_of(c))]
             app_nodes = [appends[id(c)] for c in assigning if id(c) in appends]
             bad = g.always_preceded([n], app_nodes) if app_nodes else [n]
